@@ -334,10 +334,18 @@ def sc_orders(rng, tier, out):
         can_clone = clone_ok(et, alloc, skew, (a, b, c, vres, nv))
         cmds = [joint_cmd(1, rng.choice([0, 0, 8, 33]), 0, a, b, c, vres, nv)]
         slots = 1            # all slots hold joint_ptrs here
+        if r % 2 == 0:
+            # two joint_ptrs bound to different allocator objects, then one of assignment / swap / move construction:
+            # each object has to go back to the allocator object it came from
+            cmds += ["ualloc 1", joint_cmd(1, rng.choice([0, 7]), 0, a, b, c, vres, nv),
+                     rng.choice(["movea 0 1", "movea 1 0", "swap 0 1", "swap 1 0", "movec 1"])]
+            slots = 2 if not cmds[-1].startswith("movec") else 3
         for _ in range(rng.randint(3, 10)):
             p = rng.random()
             s = rng.randrange(slots)
             t = rng.randrange(slots)
+            if rng.random() < 0.3:
+                cmds.append("ualloc %d" % rng.randint(0, 1))     # which allocator object the next creations use
             if p < 0.18:
                 cmds.append(joint_cmd(1, rng.choice([0, 5]), 0, a, b, c, vres, nv)); slots += 1
             elif p < 0.36 and can_clone:
